@@ -70,6 +70,7 @@ func (b *Buffer) WriteInt64(n int64) {
 func (b *Buffer) WriteUint(n uint) {
 	if is64Bit {
 		b.WriteUint64(uint64(n))
+		return
 	}
 	b.WriteUint32(uint32(n))
 }
@@ -77,6 +78,7 @@ func (b *Buffer) WriteUint(n uint) {
 func (b *Buffer) WriteInt(n int) {
 	if is64Bit {
 		b.WriteInt64(int64(n))
+		return
 	}
 	b.WriteInt32(int32(n))
 }
